@@ -8,39 +8,47 @@
 (*                               key, salt, generated private key)         *)
 (*   seal  {key, nonce, what}    an AEAD seal observed: the key and the    *)
 (*                               nonce under which a record / field opens  *)
+(*         w                     the 8-byte windows of v (all 25 offsets)  *)
 (* Contract: within a history no value is drawn twice, and no (key, nonce) *)
 (* pair seals two things; within one file chunk i opens exactly at nonce i.*)
+(* Fresh.tla's "a value not drawn before" is read at the grain of bytes:   *)
+(* no 8-byte window of a drawn value occurs in any value drawn earlier in  *)
+(* the history, at any offset (a generator that hands part of its output   *)
+(* out again yields values that are different as wholes).  Chance per pair *)
+(* of independent windows: 2^-64.                                          *)
 (***************************************************************************)
 EXTENDS Naturals, Sequences, FiniteSets, TLC, Json, IOUtils, SequencesExt
 
 Rec == ndJsonDeserialize(IOEnv.TRACE)
 N   == Len(Rec)
-VARIABLES l, used, sealed, viol
-vars == <<l, used, sealed, viol>>
-Init == l = 1 /\ used = {} /\ sealed = {} /\ viol = {}
+VARIABLES l, used, usedW, sealed, viol
+vars == <<l, used, usedW, sealed, viol>>
+Init == l = 1 /\ used = {} /\ usedW = {} /\ sealed = {} /\ viol = {}
+Windows(e) == {e.w[i] : i \in DOMAIN e.w}
 Flag(cond, name) == IF cond THEN {} ELSE {<<l, name>>}
 ZeroKey == "0000000000000000000000000000000000000000000000000000000000000000"
 
 Step ==
   /\ l <= N
   /\ LET e == Rec[l] IN
-     CASE e.ev = "begin" -> used' = {} /\ sealed' = {} /\ viol' = viol
+     CASE e.ev = "begin" -> used' = {} /\ usedW' = {} /\ sealed' = {} /\ viol' = viol
        [] e.ev = "draw"  -> /\ viol' = viol \cup Flag(e.v \notin used, "C07_value_drawn_twice")
                                        \cup Flag(e.ok, "C07_draw_not_recoverable")
+                                       \cup Flag(Windows(e) \cap usedW = {}, "C07_drawn_values_share_bytes")
                                        \* C05: key material that is a constant anybody can write down (32 zero bytes) makes
                                        \* the file readable from public data alone
                                        \cup Flag(e.v # ZeroKey, "C05_key_material_is_a_public_constant")
-                            /\ used' = used \cup {e.v} /\ sealed' = sealed
+                            /\ used' = used \cup {e.v} /\ usedW' = usedW \cup Windows(e) /\ sealed' = sealed
        [] e.ev = "seal"  -> /\ viol' = viol \cup Flag(<<e.key, e.nonce>> \notin sealed, "C07_key_nonce_pair_reused")
                                        \cup Flag(e.nonce = e.index, "C07_chunk_not_sealed_under_its_index")
-                            /\ sealed' = sealed \cup {<<e.key, e.nonce>>} /\ used' = used
-       [] OTHER -> viol' = viol \cup {<<l, "TOOL_unknown_event">>} /\ UNCHANGED <<used, sealed>>
+                            /\ sealed' = sealed \cup {<<e.key, e.nonce>>} /\ UNCHANGED <<used, usedW>>
+       [] OTHER -> viol' = viol \cup {<<l, "TOOL_unknown_event">>} /\ UNCHANGED <<used, usedW, sealed>>
   /\ l' = l + 1
 
 Report ==
   /\ l = N + 1
   /\ PrintT(<<"REPLAY", ToJson([viol |-> SetToSeq({[line |-> v[1], pred |-> v[2]] : v \in viol})])>>)
-  /\ l' = N + 2 /\ UNCHANGED <<used, sealed, viol>>
+  /\ l' = N + 2 /\ UNCHANGED <<used, usedW, sealed, viol>>
 Next == Step \/ Report
 TraceSpec == Init /\ [][Next]_vars
 TraceAccepted ==
